@@ -91,6 +91,35 @@ def run(tier):
     stats, failures = run_histories(PROP, hs, wd, "tx", "tx")
     vlib.log(f"[C17] T statements: {stats['histories']} histories, {stats['statements']} statements "
              f"({stats['refused']} refused), {stats['states']} states, failures={len(failures)}")
+    # readers against a committing writer
+    cst = {"statements": 0, "reads": 0, "states": 0}
+    ch = {"name": "readers-vs-writer", "battery": g.BATTERY[:8], "stmts": [{"text": t} for t in [
+        g.upsert_person('alice', 'Alice'), g.claim('bob', 'dark', '0.9'), g.update_summary('Alice', 'rev 1'),
+        g.key_conflict_at_commit('bob'), g.archive('Bob'), g.experience('Deploy X', ['Step one', 'Step two']),
+        g.double_ensure_same_tuple('alice', 'tabs'), g.merge('Alice', 'Bob')] + ([] if tier == "quick" else [
+        g.supersede('bob', 'dark', '0.95'), g.retract_one(), g.tombstone('Step one'), g.unknown_type_last('alice')])]}
+    hf = os.path.join(wd, "conc.jsonl")
+    tf = os.path.join(wd, "conc.ndjson")
+    with open(hf, "w") as f:
+        f.write(json.dumps(ch) + "\n")
+    rc, text = vlib.run_bin("drive_nexus", ["conc", hf, tf], timeout=1200)
+    if rc != 0:
+        print(text[-3000:])
+        failures.append({"tag": "driver", "reason": "drive_nexus conc aborted (panic)", "line_in_trace": 0,
+                         "event": {"tail": text[-1500:]}, "trace": [ch], "header": None})
+    else:
+        summ = json.loads(text.strip().splitlines()[-1])
+        cst.update(statements=summ["statements"], reads=summ["reads"])
+        with open(tf) as f:
+            header = json.loads(f.readline())
+        res = cc.validate_file(tf, wd, "conc", cfg="NexusTxTrace.cfg", module="NexusTxTrace")
+        cst["states"] = res["states"]
+        for fl in res["failures"]:
+            fl["header"] = header
+            fl["spec"] = "NexusTxTrace"
+            failures.append(fl)
+    vlib.log(f"[C17] T readers vs writer: {cst['statements']} statements, {cst['reads']} reader runs at parked backend "
+             f"mutations, failures={len([f for f in failures if f['tag'] == 'readers-vs-writer'])}")
     for fl in failures[:8]:
         vlib.violation(PROP, {"property": PROP, "kind": "trace", "spec": fl.get("spec"), "tag": fl["tag"],
                               "reason": fl["reason"], "line_in_trace": fl["line_in_trace"], "event": fl["event"],
@@ -113,14 +142,18 @@ def run(tier):
                 "leaves the dump unchanged (only the counter may move); a committed one satisfies CommitOK (fresh "
                 "greater sequence number, exactly one journal entry, every changed element exactly one version up "
                 "with one version-log row, created ones at version 1, everything else byte-identical); invariants "
-                "NoPendingShell, VersionLogComplete, JournalBelowSeq, TupleUnique, KeyUnique on every dump",
+                "NoPendingShell, VersionLogComplete, JournalBelowSeq, TupleUnique, KeyUnique on every dump. Readers: the "
+                "writer's backend mutations are parked one by one; at the sampled ones a reader runs 8 queries through "
+                "the nexus: it must be held by the lock, or see the answers before the statement, or the answers after "
+                "it - never a mixture; a refused statement changes no answer",
         "samples": [{"first_events": stats.get("sample")}],
         "exhaustive": False,
         "histories": stats["histories"], "statements": stats["statements"], "refused": stats["refused"],
+        "reader_runs": cst["reads"],
     }
     vlib.write_evidence(PROP, tier, "exploration", cov, time.time() - t0, n_viol, assumptions=[
-        "statements are issued one at a time: the nexus lock (writers exclusive, readers shared) is what makes a "
-        "committing statement invisible in part to concurrent readers; that lock is not exercised here",
+        "readers run against a writer parked at its backend mutations (sampled: the first 6 and every 4th) with a 6 ms "
+        "deadline; a reader that has not answered by then counts as held by the nexus lock",
         "authorization refusals are exercised by C19, not here",
     ])
     vlib.cleanup(wd)
